@@ -8,6 +8,7 @@ package main
 //     libraries ("tested, not proved"), thorough tier only.
 
 import (
+	"sync"
 	"encoding/json"
 	"fmt"
 	"os"
@@ -140,4 +141,158 @@ func writeBoundedReplay(run *checkRun, b boundedResult, failure string, idx int)
 	fmt.Fprintf(&sb, "failing input: %s\nreplay: confirmed-on-real-code (the harness called the real function with this input and it panicked)\nrerun: %s\n", failure, b.Cmd)
 	os.WriteFile(path, []byte(sb.String()), 0o644)
 	return path
+}
+
+// ---------- must-fail canaries (thorough tier) ----------
+//
+// A check that always passes proves nothing about the checker. In the thorough tier every
+// property re-verifies, on a scratch copy of /repo's working tree (outside /repo and /verif,
+// removed afterwards), the functions hit by a set of known property-breaking edits
+// (/verif/selfmut, /verif/seeded*): each must make a named obligation fail. A canary that is
+// no longer caught makes the check exit 2 (its own pass is not to be believed); a canary whose
+// patch no longer applies to the current tree is reported as stale and not counted.
+
+type canarySpec struct {
+	File     string `json:"file"`
+	Property string `json:"property"`
+	Function string `json:"function"`
+	Expect   string `json:"expect"`
+	Safety   bool   `json:"safety"`
+}
+
+type canaryResult struct {
+	Canary   string  `json:"canary"`
+	Function string  `json:"function"`
+	Expect   string  `json:"expected_failing_obligation"`
+	Result   string  `json:"result"` // caught | MISSED | stale
+	Failing  string  `json:"failing_obligation,omitempty"`
+	Secs     float64 `json:"secs"`
+}
+
+func copyTree(src, dst string) error {
+	return filepath.Walk(src, func(p string, info os.FileInfo, err error) error {
+		if err != nil {
+			return err
+		}
+		rel, _ := filepath.Rel(src, p)
+		if rel == ".git" || strings.HasPrefix(rel, ".git"+string(filepath.Separator)) {
+			if info.IsDir() {
+				return filepath.SkipDir
+			}
+			return nil
+		}
+		target := filepath.Join(dst, rel)
+		if info.IsDir() {
+			return os.MkdirAll(target, 0o755)
+		}
+		if !info.Mode().IsRegular() {
+			return nil
+		}
+		data, err := os.ReadFile(p)
+		if err != nil {
+			return err
+		}
+		return os.WriteFile(target, data, 0o644)
+	})
+}
+
+func loadCanaries(prop string) []canarySpec {
+	var out []canarySpec
+	matches, _ := filepath.Glob(filepath.Join(verifDir, "*", "canaries.json"))
+	matches = append(matches, filepath.Join(verifDir, "selfmut", "index.json"))
+	for _, idx := range matches {
+		data, err := os.ReadFile(idx)
+		if err != nil {
+			continue
+		}
+		var specs []canarySpec
+		if json.Unmarshal(data, &specs) != nil {
+			continue
+		}
+		for _, s := range specs {
+			if s.Property == prop {
+				if !filepath.IsAbs(s.File) {
+					s.File = filepath.Join(filepath.Dir(idx), s.File)
+				}
+				out = append(out, s)
+			}
+		}
+	}
+	return out
+}
+
+func runCanaries(prop string) []canaryResult {
+	specs := loadCanaries(prop)
+	if len(specs) == 0 {
+		return nil
+	}
+	self, err := os.Executable()
+	if err != nil {
+		return nil
+	}
+	out := make([]canaryResult, len(specs))
+	var wg sync.WaitGroup
+	sem := make(chan struct{}, 4)
+	for i, s := range specs {
+		wg.Add(1)
+		go func(i int, s canarySpec) {
+			defer wg.Done()
+			sem <- struct{}{}
+			defer func() { <-sem }()
+			out[i] = runCanary(self, s)
+		}(i, s)
+	}
+	wg.Wait()
+	return out
+}
+
+func runCanary(self string, s canarySpec) canaryResult {
+	{
+		t0 := time.Now()
+		res := canaryResult{Canary: strings.TrimPrefix(s.File, verifDir+"/"), Function: s.Function, Expect: s.Expect}
+		tmp, err := os.MkdirTemp("", "gocv-canary")
+		if err != nil {
+			res.Result = "stale"
+			return res
+		}
+		func() {
+			defer os.RemoveAll(tmp)
+			if err := copyTree(repoDir, tmp); err != nil {
+				res.Result = "stale"
+				return
+			}
+			ap := exec.Command("git", "apply", "--unsafe-paths", "--directory="+tmp, s.File)
+			ap.Dir = tmp
+			// git apply outside a repository behaves like patch
+			ap = exec.Command("git", "apply", s.File)
+			ap.Dir = tmp
+			ap.Env = append(os.Environ(), "GIT_DIR=/nonexistent", "GIT_CEILING_DIRECTORIES="+filepath.Dir(tmp))
+			if raw, err := ap.CombinedOutput(); err != nil {
+				res.Result = "stale"
+				res.Failing = truncate(string(raw), 200)
+				return
+			}
+			args := []string{"func", "-f", s.Function, "-t", "10"}
+			if s.Safety {
+				args = append(args, "-safety")
+			}
+			cmd := exec.Command(self, args...)
+			cmd.Env = append(os.Environ(), "GOCV_REPO="+tmp, "GOCV_VERIF="+verifDir, "GOCV_NO_CLEANUP=1")
+			raw, _ := cmd.CombinedOutput()
+			res.Result = "MISSED"
+			for _, line := range strings.Split(string(raw), "\n") {
+				f := strings.Fields(line)
+				if len(f) >= 5 && (f[0] == "sat" || f[0] == "unknown" || f[0] == "timeout" || f[0] == "error") && strings.Contains(line, s.Expect) {
+					res.Result = "caught"
+					res.Failing = f[len(f)-1]
+					break
+				}
+			}
+			if res.Result == "MISSED" && strings.Contains(string(raw), "function not found") {
+				res.Result = "stale"
+			}
+		}()
+		res.Secs = round3(time.Since(t0).Seconds())
+		return res
+	}
 }
